@@ -161,8 +161,10 @@ func (d *Database) NewIterator(prefix []byte, withUpperBound bool) (db.Iterator,
 		vals = make([][]byte, 0, len(d.db))
 	)
 
+	// A nil upper bound (empty or all-0xff prefix) means "no upper bound", as in pebble.
+	bounded := withUpperBound && upperBound != nil
 	for k := range d.db {
-		if strings.HasPrefix(k, pr) && (!withUpperBound || k < ub) {
+		if strings.HasPrefix(k, pr) && (!bounded || k < ub) {
 			keys = append(keys, k)
 		}
 	}
